@@ -200,6 +200,41 @@ theorem storage_fault_irrelevant (c : Cfg) (r : Result) (h : runForever c = some
       simp only [hperm, if_false]
       exact ⟨_, rfl, rfl⟩
 
+/-- the helper task of `wait_init()` (`asyncio.create_task(self._init_done.wait())`) lives no longer than the
+    call: whoever awaits wait_init() – an application task, a supporting coroutine that `run()`
+    cancels, a task cancelled from outside at any instant `t` while the circuit keeps running – and
+    whatever terminates the simulation, the helper is not in the task table when run_forever has
+    finished, it is gone by the end of the simulation (`endTime`), and it is gone at `t` when the
+    caller was cancelled at `t` -/
+theorem helper_lives_no_longer_than_call (c : Cfg) (r : Result) (h : runForever c = some r) :
+    Task.helper ∉ r.tasks ∧ helperAt r.helperSpan r.endTime = false ∧
+    (∀ t, c.waiter = .cancelled t → helperAt r.helperSpan t = false) ∧
+    (∀ a b, r.helperSpan = some (a, b) → b ≤ r.endTime) := by
+  unfold runForever at h
+  cases hb : c.cause.before with
+  | true =>
+    simp only [hb, if_true, Option.some.injEq] at h
+    subst h
+    simp [helperAt]
+  | false =>
+    simp only [hb, Bool.false_eq_true, if_false] at h
+    unfold finish at h
+    simp only [consumePending, Bool.false_and, Bool.false_eq_true, if_false] at h
+    split at h
+    · simp at h
+    · simp only [Option.some.injEq] at h
+      subst h
+      refine ⟨by simp, ?_, ?_, ?_⟩
+      · simp only [helperSpanOf, helperAt]
+        cases c.waiter <;> cases (plan c).initEnd <;> simp <;> omega
+      · intro t ht
+        simp only [helperSpanOf, helperAt, ht]
+        cases (plan c).initEnd <;> simp <;> omega
+      · intro a b hab
+        dsimp only at hab ⊢
+        simp only [helperSpanOf] at hab
+        cases hw : c.waiter <;> cases hi : (plan c).initEnd <;> simp [hw, hi] at hab <;> omega
+
 /-- `stop_data_last` (OutputFunc): for a started OutputFunc block with stop_data the calls of its
     output function end with the stop_data call, and that is the only stop_data call – for every
     fault script, cause and stop order -/
